@@ -44,6 +44,7 @@ TRUSTED_EXTRA = [
 ]
 
 FUEL = 4000
+REGEN = ["NsFlow"]
 
 # --------------------------------------------------------------------------- template descriptions
 # template = dict(page=[(name, default|None)], inherit=None|uri, nss=[ns], defs=[(name, isblock, items)], body=items)
@@ -205,6 +206,7 @@ def w_set(case):
         out += [enc(name), str(len(members))]
         for m, kind, tag in members:
             out += [enc(m), kind, enc(tag)]
+    out += ["1" if case.get("strict") else "0", "1" if case.get("ieh") else "0"]
     return out
 
 
@@ -330,7 +332,13 @@ def run_impl(case, want_lookup=False):
     """render the case with the real mako; returns (status, output, events)"""
     from mako.lookup import TemplateLookup
     from mako import exceptions as X
-    lk = TemplateLookup(directories=list(case["dirs"]))
+    handler_calls = []
+
+    def handler(context, error):          # include_error_handler: asked, answers false -> the error propagates
+        handler_calls.append(type(error).__name__)
+        return False
+    lk = TemplateLookup(directories=list(case["dirs"]), strict_undefined=bool(case.get("strict")),
+                        include_error_handler=handler if case.get("ieh") else None)
     for u, t in case["coll"]:
         lk.put_string(u, template_src(t))
     events = []
@@ -466,7 +474,7 @@ class Gen:
         mods = [m for m in MODS if any(ns["src"] == ("m", m[0]) for t in tpls for ns in t["nss"])]
         ndirs = rng.randint(1, 3)
         case = dict(entry=self.uris[0], coll=[], dirs=["r%d" % k for k in range(ndirs)], files=[], mods=mods,
-                    backing=self.backing)
+                    backing=self.backing, strict=rng.random() < 0.25, ieh=rng.random() < 0.35)
         if self.backing == "put":
             case["dirs"] = []
         for i, u in enumerate(self.uris):
@@ -703,6 +711,7 @@ def corr_render(ctx, sb):
             ms, mo, me = parse_model(r)
             ctx.branch("render:" + ms)
             ctx.branch("backing:" + c["backing"])
+            ctx.branch("config:strict=%d,include_error_handler=%d" % (bool(c.get("strict")), bool(c.get("ieh"))))
             for e in me:
                 ctx.branch("event:%s:%s:%s" % (e[0], "abs" if e[2].startswith("/") else "rel", "found" if e[4] else "missing"))
             if me:
@@ -942,6 +951,7 @@ class Tree:
         self.uris = [canon_uri(rng, i, used) for i in range(self.n)]
         self.backing = backing or rng.choice(["put", "files", "mixed"])
         self.ndirs = rng.randint(1, 3)
+        self.ieh = rng.random() < 0.4
         self.where = [(self.backing if self.backing != "mixed" else rng.choice(["put", "files"]), rng.randrange(self.ndirs))
                       for _ in range(self.n)]
         self.inh_raw = {}
@@ -1082,7 +1092,7 @@ class Tree:
     def case(self):
         tpls = [self.template(i) for i in range(self.n)]
         c = dict(coll=[], dirs=["r%d" % k for k in range(self.ndirs)] if self.backing != "put" else [], files=[], mods=[],
-                 backing=self.backing, data=[], entry=self.uris[0])
+                 backing=self.backing, data=[], entry=self.uris[0], ieh=self.ieh)
         for (how, d), u, t in zip(self.where, self.uris, tpls):
             if how == "put":
                 c["coll"].append((u, t))
@@ -1278,6 +1288,7 @@ def oracle_precedence(ctx, sb):
         auri, turi, buri = "/p/a.html", rng.choice(["/p/t.html", "/q/t.html", "/t.html"]), "/q/r/tb.html"
         backing = rng.choice(["put", "files"])
         nodd = backing != "files"
+        strict = rng.random() < 0.5
         site_kind = rng.choice(["body", "def"])
 
         def qualified(k):
@@ -1322,6 +1333,7 @@ def oracle_precedence(ctx, sb):
                 c = put_or_files(rng, tpls, backing)
                 c["entry"] = auri
                 c["data"] = [(x, ("obj", "<ctx.%s>" % x)) for x in sorted(cvars)]
+                c["strict"] = strict
                 if use_module:
                     c["mods"] = [(modname, members)]
                 materialise(c, sb)
@@ -1331,17 +1343,17 @@ def oracle_precedence(ctx, sb):
                     release(c)
                 rc = strip_case(c)
                 st["cases"] += 1
-                ctx.branch("oracle:precedence:%s:%s:%s" % ("module" if use_module else "file", mode, form))
+                ctx.branch("oracle:precedence:%s:%s:%s:%s" % ("module" if use_module else "file", mode, form, "strict" if strict else "lax"))
                 ok = (status == "ok" and out == want) if want is not None else status in ("err:attr", "err:type", "err:name")
                 if ok:
                     continue
                 if form == "u" and mode == "star" and k in inline and k in dt and k not in da and out == qualified_file(k, use_module, mod_all if use_module else None):
                     site = "star-import-shadows-inline-def"
                 else:
-                    site = "precedence:%s:%s:%s" % (form, mode, "module" if use_module else "file")
+                    site = "precedence:%s:%s:%s%s" % (form, mode, "module" if use_module else "file", ":strict_undefined" if strict else "")
                 report(ctx, site, {"input": k, "form": "n.%s()" % k if form == "q" else "%s()" % k, "import": imp,
                                      "inline": sorted(inline), "target_defs": sorted(dt), "base_defs": sorted(db),
-                                   "own_defs": sorted(da), "context": sorted(cvars), "called_from": site_kind, "repro": rc,
+                                   "own_defs": sorted(da), "context": sorted(cvars), "called_from": site_kind, "strict_undefined": strict, "repro": rc,
                                    **({"want": want} if want is not None else {"want_status": ["err:attr", "err:type", "err:name"]})},
                        "got %s %r, the property demands %r" % (status, out, want), "oracle.precedence")
     # inheritable namespaces are reachable from self in derived templates
@@ -1428,6 +1440,7 @@ def oracle_include(ctx, sb):
         entry = "/zz/entry.html" if situation in ("base-body", "def-via-namespace") else auri
         c = put_or_files(rng, tpls, inc_backing)
         c["entry"] = entry
+        c["ieh"] = rng.random() < 0.5
         c["data"] = [(p, ("obj", "c.%s" % p)) for p in cvars]
         # expectation ------------------------------------------------------------------------------------------
         vals, missing = [], False
@@ -1457,7 +1470,8 @@ def oracle_include(ctx, sb):
         finally:
             release(c)
         st["cases"] += 1
-        ctx.branch("oracle:include:%s:%s" % (situation, "inheriting-target" if t_inherits else "plain-target"))
+        ctx.branch("oracle:include:%s:%s:%s" % (situation, "inheriting-target" if t_inherits else "plain-target",
+                                                "error-handler" if c["ieh"] else "no-handler"))
         if missing and not t_inherits:
             ok = status == "err:type"
         elif missing:
@@ -1466,8 +1480,8 @@ def oracle_include(ctx, sb):
             ok = status == "ok" and re.fullmatch(want_re, norm_probe(out)) is not None
         if ok:
             continue
-        site = "include:%s:%s" % (situation, status)
-        report(ctx, site, {"input": situation, "page": page, "args": args, "context": cvars, "repro": strip_case(c),
+        site = "include:%s:%s%s" % (situation, status, ":include_error_handler" if c["ieh"] else "")
+        report(ctx, site, {"input": situation, "include_error_handler": c["ieh"], "page": page, "args": args, "context": cvars, "repro": strip_case(c),
                            **({"want_status": ["err:type"]} if missing else {"want_re": want_re})},
                "got %s %r, the property demands a match of %s" % (status, out, want_re), "oracle.include")
 
@@ -1705,6 +1719,7 @@ def oracle_same_relative(ctx, sb):
         tpls = [("/main.html", main)] + list(cd.items())
         c = put_or_files(rng, tpls, backing)
         c["entry"] = "/main.html"
+        c["ieh"] = rng.random() < 0.4
         materialise(c, sb)
         try:
             status, out = run_plain(c)
